@@ -134,6 +134,12 @@ func (c *Ctx) checkBCE(rule string, pkgs []string, scope map[*ssa.Function]bool,
 			L.OK(rule, fname, expr, pos, "not proven by the compiler, proven by linear bounds: "+det)
 			continue
 		}
+		// (a2) the site is in a private helper: proven in the inlined view of every function that
+		// reaches the helper (where the caller's own checks are visible)
+		if ok, det := c.proveSiteInCallers(st.fn, st.s.in); ok {
+			L.OK(rule, fname, expr, pos, "not proven by the compiler; proven by linear bounds in the inlined view of every caller: "+det)
+			continue
+		}
 		// (b) justified
 		just := false
 		for i, j := range table {
@@ -234,4 +240,83 @@ func (c *Ctx) enclosingScopeFunc(file string, line int, scope map[*ssa.Function]
 		return names[0]
 	}
 	return ""
+}
+
+// proveSiteInCallers: h is an unexported function never used as a value; every static call chain to
+// it ends in a function whose inlined view contains the body of h (no call of h is left in that
+// view), and in each of those views every copy of the index instruction is proven in bounds.
+func (c *Ctx) proveSiteInCallers(h *ssa.Function, site ssa.Instruction) (bool, string) {
+	if h.Parent() != nil || token.IsExported(h.Name()) {
+		return false, ""
+	}
+	if ok, _ := c.privateHelperOf(h, func(string) bool { return false }); !ok {
+		// privateHelperOf also fills the callers index; accept only a helper with static callers and no value use
+		if c.valueUse[h] || len(c.callersIdx[h]) == 0 {
+			return false, ""
+		}
+	}
+	// roots: walk up the static callers until a function that is not itself a private helper
+	roots := map[*ssa.Function]bool{}
+	seen := map[*ssa.Function]bool{}
+	var up func(f *ssa.Function, depth int) bool
+	up = func(f *ssa.Function, depth int) bool {
+		if depth > 4 {
+			return false
+		}
+		if seen[f] {
+			return true
+		}
+		seen[f] = true
+		for _, g := range c.callersIdx[f] {
+			r := g
+			for r.Parent() != nil {
+				r = r.Parent()
+			}
+			if !token.IsExported(r.Name()) && !c.valueUse[r] && len(c.callersIdx[r]) > 0 && r.Pkg == h.Pkg {
+				if !up(r, depth+1) {
+					return false
+				}
+				continue
+			}
+			roots[r] = true
+		}
+		return true
+	}
+	if !up(h, 0) || len(roots) == 0 {
+		return false, ""
+	}
+	var dets []string
+	for r := range roots {
+		v := c.viewOf(r)
+		if v == r {
+			return false, ""
+		}
+		n := 0
+		okAll := true
+		for _, f := range withAnons(v) {
+			allInstrs(f, func(in ssa.Instruction) {
+				if cc := callOf(in); cc != nil && cc.StaticCallee() == h {
+					okAll = false // a call of the helper survives in this view
+				}
+				if c.views.OrigInstr[in] != site {
+					return
+				}
+				for _, s := range indexSites(f) {
+					if s.in == in {
+						n++
+						lc := newLinCtx(c, f)
+						if ok, _ := c.proveSite(lc, s); !ok {
+							okAll = false
+						}
+					}
+				}
+			})
+		}
+		if !okAll || n == 0 {
+			return false, ""
+		}
+		dets = append(dets, fmt.Sprintf("%s (%d copies)", c.P.FuncName(r), n))
+	}
+	sort.Strings(dets)
+	return true, strings.Join(dets, ", ")
 }
